@@ -171,6 +171,10 @@ class _ExprCompiler:
         if k == "p":
             self.uses_params = True
             return f"F32(_f.prm(parameters, period, {e[1]!r}))"
+        if k == "pin":
+            self.uses_params = True
+            node = "parameters(period)" + "".join(f".{part}" for part in e[1].split(".") if part)
+            return f"F32(1.0 if {e[2]!r} in {node} else 0.0)"
         if k == "sc":
             self.uses_params = True
             return f"_f.prm(parameters, period, {e[1]!r}).calc(vec(population, {self.c(e[2])})).astype(F32)"
@@ -215,6 +219,10 @@ def formula_src(world, var, start, expr) -> str:
             body = f"idx({e}, {len(en['members'])})"
         elif t == "date":
             body = f"D0 + idx({e}, 20000).astype('timedelta64[D]')"
+            if var.get("date_res"):
+                # the rule works in whole months (or years): what it returns is a date array
+                # of that resolution, which the engine brings to days
+                body = f"({body}).astype('datetime64[{var['date_res']}]')"
         elif t == "str":
             body = f"STRS[idx({e}, 8)]"
         else:
@@ -261,7 +269,8 @@ def variable_src(world, var, partial=None) -> str:
         return out
     lines.append(f"    value_type = {_TYPE[var['type']]}")
     lines.append(f"    entity = ENT[{var['entity']!r}]")
-    lines.append(f"    definition_period = {_UNIT[var['unit']]}")
+    # (a definition period may also be declared by its name: DateUnit is a str enumeration)
+    lines.append(f"    definition_period = {var['unit']!r}" if var.get("unit_as_text") else f"    definition_period = {_UNIT[var['unit']]}")
     lines.append(f"    label = {var.get('label', 'label of ' + var['name'])!r}")
     if var["type"] == "enum":
         lines.append(f"    possible_values = {var['enum']}")
